@@ -1,5 +1,10 @@
 """C14 - every compiled IR module is well-formed."""
-from .. import adapter, allgen, irwf
+import os
+import pickle
+import shutil
+import tempfile
+
+from .. import adapter, allgen, genmod, irwf
 
 LEVEL = "exploration"
 RULE = ("Every module produced from the union of all program generators (scalar core, vectors/matrices, call graphs, "
@@ -11,7 +16,7 @@ RULE = ("Every module produced from the union of all program generators (scalar 
         "reaching the use (forward must-be-defined dataflow over the instruction-level CFG the VM executes: flat "
         "layout, fall-through between blocks, mid-block branches, returns); every branch names blocks of the same "
         "function, both targets when conditional; every call names a function of the linked program with the same "
-        "number of arguments. Non-trivial = a function with >= 3 basic blocks, or one in which the optimiser removed or "
+        "number of arguments - the last also for multi-module programs (vf/genmod.py: chains, diamonds, stars) linked from the root module alone. Non-trivial = a function with >= 3 basic blocks, or one in which the optimiser removed or "
         "replaced an instruction; distinct by (source, optimisation setting).")
 ASSUMPTIONS = [
     "the instruction-level CFG mirrors VM.__Execute (blocks laid out in order, fall-through, branch, return)",
@@ -55,7 +60,55 @@ def check(ctx, case):
             return
 
 
+def linked_check(ctx, case):
+    """multi-module program (import DAG: chains, diamonds, stars, siblings): every module is compiled separately at
+    both optimisation settings, stored as <name>.nslir, only the root is added to the linker; every function of the
+    LINKED program must be well-formed, in particular every call names a function of the linked program"""
+    from nsl import LinearIR
+    work = tempfile.mkdtemp(prefix="c14_")
+    old = os.getcwd()
+    os.chdir(work)
+    try:
+        for opt in (False, True):
+            ctx.count()
+            ok = True
+            for k, m in enumerate(case.modules):
+                c = adapter.compile_src(case.module_source(k), optimize=opt)
+                if not c.ok:
+                    ctx.discard("module-not-accepted:%s" % c.stage)
+                    ok = False
+                    break
+                with open(m["name"] + ".nslir", "wb") as fh:
+                    pickle.dump(c.ir, fh)
+            if not ok:
+                continue
+            try:
+                with adapter.quiet():
+                    linker = LinearIR.Linker(loader=LinearIR.FilesystemModuleLoader())
+                    with open(case.modules[-1]["name"] + ".nslir", "rb") as fh:
+                        linker.AddModule(pickle.load(fh))
+                    program = linker.Link()
+            except Exception as e:
+                ctx.discard("does-not-link:" + type(e).__name__)
+                continue
+            ctx.label("linked-program:" + case.shape)
+            ctx.nontrivial((case.show(), opt))
+            for name, fn in sorted(program.Functions.items()):
+                problems = irwf.check_function(fn, program.Functions)
+                if problems:
+                    kind, msg = problems[0]
+                    ctx.fail("linked|%s|opt=%s" % (kind, opt), "function %s of the linked program (functions: %r): %s\n%s" % (
+                        name, sorted(program.Functions), msg, case.show()), case)
+                    return
+    finally:
+        os.chdir(old)
+        shutil.rmtree(work, ignore_errors=True)
+
+
 def run(R):
+    R.hyp("linked-programs", genmod.modules_case(n_inputs=0), linked_check, examples=R.pick(80, 1500))
+    for sh in ("star", "diamond", "chain3"):
+        R.require("linked-program:" + sh)
     R.hyp("all-generators", allgen.any_case(n_inputs=0), check, examples=R.pick(300, 6000), shrink="ast")
     R.hyp("store-load-shapes", allgen.opt_shapes_case(n_inputs=0), check, examples=R.pick(150, 3000), shrink="ast")
     for l in ("optimiser-changed-the-module", "function-with->=3-blocks", "module-with-calls"):
